@@ -137,3 +137,12 @@ Example C03_nonvacuous :
        (CDict [("userName", CField 2); ("n", CList [CField 0; CNone; CField 1])])
        (VDict [(KS "n", VList [VInt 5; VStr "gap"; VInt 6])]) = Loaded [(2, 7); (0, 5); (1, 6)] [].
 Proof. split; reflexivity. Qed.
+
+
+(* every crown the layout builder accepts - after re-ordering - has pairwise distinct keys in each of its mapping nodes: the
+   hypothesis `wf c` of the dumper / round-trip theorems above and of C05's "exactly once" holds of every layout produced *)
+From AV Require Proofs.LayoutWf.
+Theorem C03_accepted_layout_has_distinct_keys : forall stack output fs c paths,
+  Layout.make_layout stack output fs = Layout.Good c paths -> CrownProofs.wf c.
+Proof. exact LayoutWf.accepted_layout_has_distinct_keys. Qed.
+Print Assumptions C03_accepted_layout_has_distinct_keys.
